@@ -428,6 +428,7 @@ func (s *scope) createInstance(descriptor *Descriptor) (any, error) {
 		}
 
 		s.setInstance(descriptor, key, instance)
+		s.shareWithAliases(descriptor, instance)
 		return instance, nil
 	}
 
@@ -596,7 +597,35 @@ func (s *scope) createInstance(descriptor *Descriptor) (any, error) {
 	}
 
 	s.setInstance(descriptor, key, instance)
+	s.shareWithAliases(descriptor, instance)
 	return instance, nil
+}
+
+// shareWithAliases makes an instance created for one interface alias of a
+// registration (godi.As with several interfaces) the cached instance of the
+// other aliases too: the constructor runs once, not once per alias. The
+// instance is tracked for disposal only once, by setInstance.
+func (s *scope) shareWithAliases(descriptor *Descriptor, instance any) {
+	for _, alias := range descriptor.family {
+		if alias == descriptor {
+			continue
+		}
+
+		key := instanceKey{Type: alias.Type, Key: alias.Key, Group: alias.Group}
+
+		switch alias.Lifetime {
+		case Singleton:
+			p := s.rootProvider
+			p.singletons.Store(key, instance)
+			p.singletonKeysMu.Lock()
+			p.singletonKeys = append(p.singletonKeys, key)
+			p.singletonKeysMu.Unlock()
+		case Scoped:
+			s.instancesMu.Lock()
+			s.instances[key] = instance
+			s.instancesMu.Unlock()
+		}
+	}
 }
 
 // FromContext retrieves a Scope from the context.
